@@ -39,7 +39,7 @@ def _case(draw, tier):
                "lightsim2grid": draw(st.sampled_from([False, "auto"]))}
     case = {"recipe": recipe, "opt": opt}
     if opt.get("enforce_q_lims") and draw(st.integers(0, 1)):
-        case["qcal"] = draw(st.lists(st.sampled_from(qcal.FACTORS), min_size=4, max_size=4))
+        case["qcal"] = draw(qcal.factors())
     return case
 
 
@@ -64,7 +64,10 @@ def check(case):
         def run_free(n):
             with silence():
                 pp.runpp(n, tolerance_mva=pf_tol(sn), max_iteration=40, **dict({k: v for k, v in opt.items() if k != "mode"}, enforce_q_lims=False))
-        cal = qcal.apply(net, case["qcal"], run_free)
+        def run_enf(n):
+            with silence():
+                pp.runpp(n, tolerance_mva=pf_tol(sn), max_iteration=40, **{k: v for k, v in opt.items() if k != "mode"})
+        cal = qcal.apply(net, case["qcal"], run_free, run_enf)
     try:
         with silence():
             if dc:
